@@ -3,7 +3,7 @@
    from the definitions."  The model is Bft/Model.v (tied to bft.Engine / bft.justifier by the correspondence run). *)
 From Coq Require Import List NArith Bool Lia.
 From Verif Require Import Common.Util Bft.Tree Bft.Model Bft.Quorum Bft.ProofsTally Bft.ProofsChain Bft.ProofsSearch
-  Bft.ProofsNode Bft.Safety Bft.ProofsWitness Bft.ProofsCommit.
+  Bft.ProofsNode Bft.Safety Bft.ProofsWitness Bft.ProofsCommit Bft.ProofsOrder Bft.ProofsOrder2 Bft.ProofsOrder3 Bft.ProofsOrder4.
 Import ListNotations.
 Open Scope N_scope.
 
@@ -50,6 +50,41 @@ Theorem best_order_independent c n1 n2 : 0 < c_L c -> inv c n1 -> inv c n2 ->
   n_best n1 = n_best n2.
 Proof. intros HL. exact (same_repo_same_best c HL n1 n2). Qed.
 
+(* 3b. import_set_order_independent (first sentence, for consistent trees: in every well-formed repository drawn from the
+       tree all finalizing blocks — committed store points of quality > 1 — lie on one chain).  Two nodes run arbitrary
+       histories of deliveries (any order in which the model accepts them, duplicates, unknown parents, refused blocks)
+       and restarts over the tree; if they end up storing the same set of blocks they hold the same best block and the
+       same finalized checkpoint.  finalized is characterised as a function of the set (fin_char): the checkpoint of the
+       first epoch, on the chain of the highest finalizing block B, whose store point carries quality Q_B - 1. *)
+Theorem import_set_order_independent c U g m1 m2 h1 h2 : 0 < c_L c ->
+  tree_consistent c U -> b_num g = 0 -> In g U ->
+  (forall b, In (Some b) h1 \/ In (Some b) h2 -> In b U) ->
+  (forall nd b, inv c nd -> In (Some b) h1 \/ In (Some b) h2 -> valid_child (n_repo nd) b) ->
+  let n1 := run_node c (init_node g m1) h1 in
+  let n2 := run_node c (init_node g m2) h2 in
+  (forall x, In x (n_repo n1) <-> In x (n_repo n2)) ->
+  n_best n1 = n_best n2 /\ e_fin (n_eng n1) = e_fin (n_eng n2).
+Proof. intros HL. exact (import_set_order_independent_lemma c HL U g m1 m2 h1 h2). Qed.
+
+Theorem finalized_is_function_of_set c r1 r2 f1 f2 : 0 < c_L c ->
+  wf_repo r1 -> wf_repo r2 -> (forall x, In x r1 <-> In x r2) -> consistent c r1 ->
+  fin_char c r1 f1 -> fin_char c r2 f2 -> f1 = f2.
+Proof. intros HL. exact (fin_char_unique c HL r1 r2 f1 f2). Qed.
+
+(* chains (hence qualities, per-block states) do not depend on the storage order *)
+Theorem chain_is_function_of_set r1 r2 id : wf_repo r1 -> wf_repo r2 -> (forall x, In x r1 <-> In x r2) ->
+  chain_of r1 id = chain_of r2 id.
+Proof. exact (chain_of_set_eq r1 r2 id). Qed.
+
+(* Justified(): same stored set, same finalized, empty one-entry cache (e.g. after a restart) => same answer for the
+   same best block.  _partial: coherence of the cache (keyed by the store-point id only) with a finalized that moved in
+   between is not proved. *)
+Theorem justified_order_independent_partial c r1 r2 e1 e2 best : 0 < c_L c ->
+  wf_repo r1 -> wf_repo r2 -> (forall x, In x r1 <-> In x r2) -> qs_ok c r1 (e_qs e1) -> qs_ok c r2 (e_qs e2) ->
+  e_fin e1 = e_fin e2 -> e_jc e1 = None -> e_jc e2 = None ->
+  snd (justified c r1 e1 best) = snd (justified c r2 e2 best).
+Proof. intros HL. exact (justified_set_eq c HL r1 r2 e1 e2 best). Qed.
+
 (* 4. quality never decreases along a chain and grows by at most one per block *)
 Theorem quality_monotone c b t : 0 < c_L c -> grounded (b :: t) ->
   quality_pure c t <= quality_pure c (b :: t) <= quality_pure c t + 1.
@@ -95,6 +130,17 @@ Example f1_tree_imports_with_guard :
   import_codes false cfg4 (init_node gen 1) f1_blocks = [0;0;0;0;0;0;0;0;0;0;0;0;0;103].
 Proof. split; [exact f1_guarded_ok | exact f1_unguarded_fails]. Qed.
 
+(* non-vacuity of import_set_order_independent's hypotheses: the 12-block main chain of the F1 tree is a consistent tree
+   holding two finalizing blocks (the ends of epochs 1 and 2) *)
+Definition main_chain : list blk := rev (gen :: map a [1;2;3;4;5;6;7;8;9;10;11]).
+Example consistent_tree_example :
+  tree_consistent cfg4 main_chain /\
+  finalizing cfg4 main_chain (a 7) /\ finalizing cfg4 main_chain (a 11).
+Proof.
+  split; [apply single_chain_consistent; vm_compute; intuition reflexivity|].
+  split; (split; [vm_compute; tauto | split; [vm_compute; reflexivity | split; [vm_compute; reflexivity | vm_compute; reflexivity]]]).
+Qed.
+
 Example search_example : (* qualities 1,2,2,3 per epoch, committed epoch has quality 3: the search finds index 1 *)
   bsearch 5 (fun i => Ok (2 <=? nth (N.to_nat i) [1;2;2;3] 0)) 0 4 = Ok 1.
 Proof. vm_compute. reflexivity. Qed.
@@ -105,6 +151,10 @@ Print Assumptions import_history_invariants.
 Print Assumptions stored_quality_is_from_scratch.
 Print Assumptions best_is_max.
 Print Assumptions best_order_independent.
+Print Assumptions import_set_order_independent.
+Print Assumptions finalized_is_function_of_set.
+Print Assumptions chain_is_function_of_set.
+Print Assumptions justified_order_independent_partial.
 Print Assumptions quality_monotone.
 Print Assumptions commit_block_total.
 Print Assumptions accepted_block_imports_without_error.
